@@ -9,7 +9,7 @@ pub fn run(t: &[&str]) -> String {
 pub fn gen(rng: &mut Rng, tier: Tier, out: &mut Vec<String>) {
     let n = if tier == Tier::Quick { 500 } else { 20_000 };
     for i in 0..n {
-        let door = ['r', 'B', 'b', 'c', 'C', 'r', 'b', 'c'][i % 8];
+        let door = ['r', 'B', 'b', 'c', 'C', 'M', 'b', 'c'][i % 8];
         let colour_only = i % 5 == 4;
         let k = 1 + (i / 2) % 4;
         let ntris = if colour_only { 1 } else { 1 + rng.below(if tier == Tier::Quick { 4 } else { 8 }) as usize };
@@ -19,7 +19,7 @@ pub fn gen(rng: &mut Rng, tier: Tier, out: &mut Vec<String>) {
         let cull = if both_windings { *rng.pick(&['b', 'f']) } else { 'n' };
         let flags = format!("cull={cull} sort={} test=l cw=1 dw=1 sh=0 proj=none zinit={}",
             *rng.pick(&['n', 'n', 'f', 'b']), h32(0.0));
-        let (mut line, _w, _h) = header(rng, door, if colour_only { "cb" } else { "fb" }, &flags, k);
+        let (mut line, _w, _h) = header(rng, door, match (colour_only, i % 6 == 1) { (true, false) => "cb", (true, true) => "cs", (false, true) => "fs", _ => "fb" }, &flags, k);
         // independent triangles (3 vertices each) plus, sometimes, shared vertices
         let mut verts: Vec<Vec<f32>> = vec![];
         let mut tris: Vec<[usize; 3]> = vec![];
